@@ -532,9 +532,11 @@ Definition issue_invoice (w : wallet) (slate amount tip : N) (dest : option N) :
   let w3 := with_log (with_outs w2 (save_out (w_outs w2) o)) (save_tx (w_log w2) t) in
   (save_ctx w3 (mkC slate parent [] [(key, None, amount)] amount None None), Ok tt).
 
+(** ... or is that of a still pending late-locked send of ours (no inputs yet either): a [fix:]
+    for C12 — treated as an issuer's context, its blinding key went out in the returned offset *)
 Definition ctx_has_inputs (w : wallet) (slate : N) : bool :=
   match get_ctx w slate with
-  | Some c => match c_ins c with [] => false | _ => true end
+  | Some c => match c_ins c with [] => match c_late c with Some _ => true | None => false end | _ => true end
   | None => false
   end.
 
